@@ -242,7 +242,7 @@ class Engine:
                 r = self.call_function(m, [sv], {}, st, self_cls=sv.cls)
                 return self.truthy(r, st)
             return z3.BoolVal(True)
-        if k == "str":
+        if k == "str" or k == "blob":
             return z3.Length(sv.t) > 0
         if k == "val":
             t = sv.t
@@ -611,6 +611,8 @@ class Engine:
         me = SV("descriptor", x=dict(parent_getter=SV("func", x=(desc, {})), attribute_name="_" + attr,
                                      name=attr))
         c = self.reg.find_descriptor_contract(ci, attr)
+        if getattr(self.cur_contract, "inline_all", False):
+            c = None
         if c is not None and self.cur_contract is not c:
             self.call_by_contract(c, [me, obj, val], {}, st)
             return
@@ -1034,6 +1036,11 @@ class Engine:
         sp = self.schema.global_name(self, n, st)
         if sp is not None:
             return sp
+        if "/" in self.cur_fn.qual:
+            # a sibling nested function of the enclosing function
+            sib = self.prog.find_function(self.cur_fn.file + "::" + self.cur_fn.qual.split("/")[0] + "/" + n)
+            if sib is not None:
+                return SV("func", x=(sib, {}))
         return SV("builtin", x=n)
 
     def e_Tuple(self, node, st):
@@ -1578,6 +1585,13 @@ class Engine:
         return self.call_function(m, [obj] + args, kwargs, st, self_cls=obj.cls)
 
     def call_function(self, fi, args, kwargs, st, closure=None, self_cls=None, force_inline=False):
+        cc = self.cur_contract
+        if cc is not None and ((fi.file + "::" + fi.qual) in getattr(cc, "inline_callees", ())
+                               or (getattr(cc, "inline_all", False)
+                                   and (fi.file + "::" + fi.qual) not in getattr(cc, "contract_callees", ()))):
+            # the contract under verification asks for this callee's real body (e.g. loader code, which runs while the
+            # callee's usual precondition - a fully linked IR - does not hold yet)
+            force_inline = True
         c = None if (force_inline or self.reg.prefers_inline(fi)) else self.reg.find_for_call(fi, self_cls, args, kwargs)
         if c is not None and c is not self.cur_contract_for_body(fi):
             return self.call_by_contract(c, args, kwargs, st, fi)
